@@ -1,5 +1,376 @@
+/-
+  C02 — "Soundness: the verifier never accepts a proof and public-input vector for which the
+  compiled circuit has no satisfying witness."
+
+  Soundness of PLONK is COMPUTATIONAL.  What is proved here is the ALGEBRAIC CORE with explicit
+  bad-challenge sets (Finsets with cardinality bounds).  NOT proved, and assumed whenever the
+  statements below are read as statements about accepted proofs:
+
+  (A1) knowledge soundness of KZG / the algebraic group model: every commitment of the proof
+       (`a_comm … d_comm`, `z_comm`, `t_*_comm`, the opening witnesses) comes with a polynomial of
+       bounded degree that it commits to — in the theorems these polynomials are the data
+       `P : ProverPolys F`, `T : F[X]`, `h : ℕ → F[X]`; that no adversary finds the trapdoor from
+       the SRS (so that `x ∉ trapdoorBad`, the roots of an explicit polynomial the adversary knows);
+  (A2) Fiat–Shamir in the random-oracle model: each challenge is uniform and independent of
+       everything committed before it, so that "outside a set of at most `N` values" reads
+       "except with probability `N/|F|`".  The order of the quantifiers in the theorems is the order
+       of the transcript: wires ▸ `β γ` ▸ `Z` ▸ `α, (ρ,λ,φ,ν)` ▸ `T` ▸ `z` ▸ evaluations ▸ `v` ▸
+       witnesses ▸ `u`.  (`α` and the four separation challenges are drawn with nothing committed in
+       between, so the bad set of `α` may depend on the separation challenges.)
+  (A3) the executable curve arithmetic `G1.add / G1.smul / G1.msum` of `Model/Bls.lean` implements
+       a prime-order group (as in C20, level (A): the opening theorems are stated for an arbitrary
+       `F`-module `G` with a non-degenerate generator).
+
+  What IS proved (all FULL, no `_partial`):
+
+   1. `accumulator_telescopes`, `accumulator_telescopes_poly`, `perm_identities_no_copy_violation`
+   2. `identity_at_point_lifts`
+   3. `forced_proof_rejected_outside_bad_set`
+   4. `challenge_separation_alpha`, `challenge_separation_widgets`
+   5. `soundness_algebraic` (+ bounds on the bad sets `soundness_bad_sets`)
+   6. `forged_evaluation_rejected`, `forged_evaluation_rejected_model`, `forged_evaluation_rejected_agm`
+
+  Model objects the statements talk about: `Plonk.rowHolds` (row semantics, `Model/Gate.lean`),
+  `Composer.gateAt / piAt` (`Model/System.lean`), `Perm.sigmaFn lay` (the function tabulated by the
+  model's `sigmaMaps`, C05Perm), `Composer.copyViolation`, the numerator polynomial `Quot.NumP`
+  (whose coset values are the entries of the model's `quotientEvals`, C05 `quotient_in_prove`),
+  `aggregateWitness`, `Poly.evaluate` (`Model/Kzg.lean`, `Model/Poly.lean`).
+-/
 import Plonk.Model.Verifier
+import Plonk.Proofs.SoundnessCore
+import Plonk.Proofs.SoundnessOpen
+import Plonk.Proofs.SoundnessModel
+import Plonk.Proofs.SoundnessExamples
+import Plonk.Proofs.SoundnessCount
+import Plonk.Proofs.SoundnessInstance
+
 namespace Plonk.Props.C02
-open Plonk
+open Plonk Polynomial Plonk.Quot Plonk.Perm Plonk.Sound
+open Plonk.KzgMath (Nondeg agg defect)
+
 theorem placeholder_consts : Generated.V_MAX_DEGREE = 11 ∧ Generated.V_MAX_DEGREE_LEGACY = 7 := by decide
+
+/-! ### 1. the accumulator telescopes -/
+
+/-- **`accumulator_telescopes`.**  `ωⁿ = 1`; if `z(ω⁰) = 1` and `z(ω^(i+1))·den_i = z(ω^i)·num_i`
+    for every `i < n`, with every `den_i ≠ 0`, then `∏ num_i = ∏ den_i`. -/
+theorem accumulator_telescopes {K : Type*} [Field K] {ω : K} {n : ℕ} (hω : ω ^ n = 1) (z : K → K)
+    (num den : ℕ → K) (hden : ∀ i < n, den i ≠ 0) (hz0 : z (ω ^ 0) = 1)
+    (hstep : ∀ i < n, z (ω ^ (i + 1)) * den i = z (ω ^ i) * num i) :
+    ∏ i ∈ Finset.range n, num i = ∏ i ∈ Finset.range n, den i :=
+  Sound.accumulator_telescopes hω z num den hden hz0 hstep
+
+/-- non-vacuity: `ω = −1`, `n = 2`, `z(x) = 2 − x` (`z(1) = 1`, `z(−1) = 3`), `num = (3, 1)`,
+    `den = (1, 3)` -/
+example : ((-1 : F) ^ 2 = 1) ∧
+    (∀ i < 2, (fun i => if i = 0 then (1 : F) else 3) i ≠ 0) ∧
+    ((fun x : F => 2 - x) ((-1) ^ 0) = 1) ∧
+    (∀ i < 2, (fun x : F => 2 - x) ((-1) ^ (i + 1)) * (fun i => if i = 0 then (1 : F) else 3) i =
+      (fun x : F => 2 - x) ((-1) ^ i) * (fun i => if i = 0 then (3 : F) else 1) i) := by
+  refine ⟨neg_one_sq_F, ?_, by norm_num, ?_⟩
+  · intro i hi
+    interval_cases i
+    · simp
+    · simpa using three_ne_zero_F
+  · intro i hi
+    interval_cases i <;> norm_num
+
+/-- **Polynomial form.**  `ω` a primitive `n`-th root of unity.  If the two permutation identities
+    `Z(ωX)·Den(X) − Z(X)·Num(X)` and `(Z(X) − 1)·L₁(X)` vanish on the domain and `Den` has no zero on
+    the domain, then `∏ Num(ω^i) = ∏ Den(ω^i)`. -/
+theorem accumulator_telescopes_poly {K : Type*} [Field K] {ω : K} {n : ℕ}
+    (hω : IsPrimitiveRoot ω n) (hn : (n : K) ≠ 0) (Z Num Den : K[X])
+    (hden : ∀ i < n, Den.eval (ω ^ i) ≠ 0)
+    (h1 : ∀ i < n, (shiftP ω Z * Den - Z * Num).eval (ω ^ i) = 0)
+    (h2 : ∀ i < n, ((Z - 1) * L1P n).eval (ω ^ i) = 0) :
+    ∏ i ∈ Finset.range n, Num.eval (ω ^ i) = ∏ i ∈ Finset.range n, Den.eval (ω ^ i) :=
+  Sound.accumulator_telescopes_poly hω hn Z Num Den hden h1 h2
+
+/-- non-vacuity: `Z = 2 − X`, `Num = 2 + X`, `Den = 2 − X` over the domain `{1, −1}` -/
+example : IsPrimitiveRoot (-1 : F) 2 ∧ ((2 : ℕ) : F) ≠ 0 ∧
+    (∀ i < 2, exDen.eval ((-1 : F) ^ i) ≠ 0) ∧
+    (∀ i < 2, (shiftP (-1) exZ * exDen - exZ * exNum).eval ((-1 : F) ^ i) = 0) ∧
+    (∀ i < 2, ((exZ - 1) * L1P 2).eval ((-1 : F) ^ i) = 0) :=
+  ⟨neg_one_primitive, natCast_two_ne_zero_F, ex_telescope_hyps⟩
+
+/-- **PLONK instance, chained to the copy constraints.**  Compiled layout `lay` on a domain of size
+    `n = 2^k ≥` number of gates, `σ = sigmaFn lay`; wire polynomials `P.a … P.d` and accumulator `P.z`
+    arbitrary.  If the two permutation identities of the quotient vanish on the domain
+    (`permAtRow`: `num_i·Z(ω^i) − den_i·Z(ω^((i+1) mod n))` with
+    `num_i = ∏_col (w + β·K_col·ω^i + γ)`, `den_i = ∏_col (w + β·id(σ(col,i)) + γ)`;
+    `l1AtRow`: `L₁(ω^i)·(Z(ω^i) − 1)`), then for `β ∉ betaBad` (at most `(4n)²` values) and
+    `γ ∉ gammaBadM β` (at most `8n` values) — both fixed by the wire polynomials alone — the values
+    read off the wire polynomials respect `σ`, are constant on every wiring class, and every
+    proving-time composer carrying these values has no copy violation. -/
+theorem perm_identities_no_copy_violation (lay : Composer) {k : Nat} (hk : k ≤ 32)
+    (hn : lay.gates.size ≤ 2 ^ k) {ω : F} (hω : IsPrimitiveRoot ω (2 ^ k)) (P : ProverPolys F) :
+    (betaBad ω (2 ^ k) lay P).card ≤ (4 * 2 ^ k) * (4 * 2 ^ k) ∧
+    ∀ β, β ∉ betaBad ω (2 ^ k) lay P →
+      (gammaBadM ω (2 ^ k) lay P β).card ≤ 8 * 2 ^ k ∧
+      ∀ γ, γ ∉ gammaBadM ω (2 ^ k) lay P β →
+        (∀ i < 2 ^ k, permAtRow ω (2 ^ k) lay P β γ i = 0) →
+        (∀ i < 2 ^ k, l1AtRow ω P i = 0) →
+        (∀ p, wireVal ω P (sigmaFn lay p) = wireVal ω P p) ∧
+        (∀ p q, SameClass lay p q → wireVal ω P p = wireVal ω P q) ∧
+        (∀ c : Composer, (∀ p : Nat × Nat, p.1 < 4 → p.2 < lay.gates.size →
+            valAt c p < R ∧ toF (valAt c p) = wireVal ω P p) →
+          Composer.copyViolation lay c = none) := by
+  refine ⟨betaBad_card_le _ _ _ _, fun β hβ => ⟨gammaBadM_card_le _ _ _ _ _, fun γ hγ h1 h2 => ?_⟩⟩
+  have hres := perm_identities_sound lay hk hn hω P β γ hβ hγ h1 h2
+  have hconst := (respects_iff_const lay (wireVal ω P)).mp hres
+  refine ⟨hres, hconst, fun c hc => ?_⟩
+  rw [copyViolation_eq_none_iff]
+  intro p q hpq
+  obtain ⟨hp1, hp2⟩ := hc p hpq.1.1 hpq.1.2
+  obtain ⟨hq1, hq2⟩ := hc q hpq.2.1.1 hpq.2.1.2
+  exact (toF_inj_of_lt hp1 hq1).mp (by rw [hp2, hq2]; exact hconst p q hpq)
+
+/-- non-vacuity: the instance `exLay2 / exP2` (two rows, domain `{1, −1}`, `Z = 1`): the structural
+    hypotheses hold, good `β γ` exist and both permutation identities vanish on the domain -/
+example : (1 ≤ 32) ∧ exLay2.gates.size ≤ 2 ^ 1 ∧ IsPrimitiveRoot (-1 : F) (2 ^ 1) ∧
+    (∃ β γ, β ∉ betaBad (-1) (2 ^ 1) exLay2 exP2 ∧ γ ∉ gammaBadM (-1) (2 ^ 1) exLay2 exP2 β ∧
+      (∀ i < 2 ^ 1, permAtRow (-1) (2 ^ 1) exLay2 exP2 β γ i = 0) ∧
+      (∀ i < 2 ^ 1, l1AtRow (-1) exP2 i = 0)) := by
+  obtain ⟨β, γ, hβ, hγ⟩ := ex_good_beta_gamma
+  exact ⟨ex_soundness_struct.1, ex_soundness_struct.2.1, ex_soundness_struct.2.2, β, γ, hβ, hγ,
+    fun i _ => (ex_perm_identities β γ i).1, fun i _ => (ex_perm_identities β γ i).2⟩
+
+/-! ### 2. / 3. Schwartz–Zippel for the quotient identity -/
+
+/-- **`identity_at_point_lifts`.**  `idBad P T n` is the root set of `P − T·(Xⁿ − 1)`, of at most
+    `max (deg P) (deg T + n)` elements.  If `P(z) = T(z)·Z_H(z)` at ONE point `z ∉ idBad P T n`,
+    then `P = T·Z_H`, `Z_H ∣ P`, and `P` vanishes on the whole domain. -/
+theorem identity_at_point_lifts {K : Type*} [Field K] [DecidableEq K] {ω : K} {n : ℕ}
+    (hω : ω ^ n = 1) (P T : K[X]) (z : K) (h : P.eval z = T.eval z * (z ^ n - 1))
+    (hz : z ∉ idBad P T n) :
+    (idBad P T n).card ≤ max P.natDegree (T.natDegree + n) ∧
+    P = T * (X ^ n - 1) ∧ (X ^ n - 1 : K[X]) ∣ P ∧ ∀ i : ℕ, P.eval (ω ^ i) = 0 :=
+  ⟨idBad_card_le P T n, Sound.identity_at_point_lifts P T n z h hz,
+    identity_at_point_dvd P T n z h hz, identity_at_point_vanishes hω P T z h hz⟩
+
+/-- non-vacuity: `P = (X + 3)·(X² − 1)`, `T = X + 3`, `z = 5` -/
+example : ((-1 : F) ^ 2 = 1) ∧
+    (((X + C 3) * (X ^ 2 - 1) : F[X]).eval 5 = (X + C 3 : F[X]).eval 5 * ((5 : F) ^ 2 - 1)) ∧
+    (5 : F) ∉ idBad ((X + C 3) * (X ^ 2 - 1) : F[X]) (X + C 3) 2 := by
+  refine ⟨neg_one_sq_F, by simp, ?_⟩
+  simp [idBad]
+
+/-- **`forced_proof_rejected_outside_bad_set`.**  If the numerator `P` does NOT vanish somewhere
+    on the domain (a violated row: the honest algorithm would stop with "circuit unsatisfied"),
+    then for EVERY candidate quotient `T` the identity `P(z) = T(z)·Z_H(z)` fails for all `z`
+    outside `idBad P T n`, at most `max (deg P) (deg T + n)` points — in particular for the
+    polynomial obtained by dropping the remainder of the division. -/
+theorem forced_proof_rejected_outside_bad_set {K : Type*} [Field K] [DecidableEq K] {ω : K} {n : ℕ}
+    (hω : ω ^ n = 1) (P : K[X]) (hP : ∃ i : ℕ, P.eval (ω ^ i) ≠ 0) (T : K[X]) (D : ℕ)
+    (hT : T.natDegree ≤ D) :
+    (idBad P T n).card ≤ max P.natDegree (D + n) ∧
+    ∀ z, z ∉ idBad P T n → P.eval z ≠ T.eval z * (z ^ n - 1) :=
+  ⟨idBad_card_le_of_le P T n _ D (le_refl _) hT,
+    (Sound.forced_proof_rejected_outside_bad_set hω P hP T).2⟩
+
+/-- non-vacuity: `P = X` does not vanish at `ω⁰ = 1` -/
+example : ((-1 : F) ^ 2 = 1) ∧ (∃ i : ℕ, (X : F[X]).eval ((-1 : F) ^ i) ≠ 0) ∧
+    ((0 : F[X]).natDegree ≤ 0) :=
+  ⟨neg_one_sq_F, ⟨0, by simp⟩, by simp⟩
+
+/-! ### 4. separation of the summands -/
+
+/-- **`challenge_separation` (α).**  Per row `i < n`: gate value `g i`, first permutation identity
+    `p i`, second permutation identity times `L₁` `l i`.  If the `α`-weighted sums
+    `g i + α·p i + α²·l i` all vanish and `α ∉ alphaBadRows n g p l` (at most `2n` values: the roots
+    of the non-zero quadratics), every summand vanishes on every row. -/
+theorem challenge_separation_alpha {K : Type*} [Field K] [DecidableEq K] (n : ℕ) (g p l : ℕ → K) :
+    (alphaBadRows n g p l).card ≤ 2 * n ∧
+    ∀ α, α ∉ alphaBadRows n g p l → (∀ i < n, g i + α * p i + α ^ 2 * l i = 0) →
+      ∀ i < n, g i = 0 ∧ p i = 0 ∧ l i = 0 :=
+  ⟨alphaBadRows_card_le n g p l, fun α hα h => alpha_separation_rows n g p l α hα h⟩
+
+/-- non-vacuity: one row with a violated gate identity (`g = 1`): the bad set is empty, the sum
+    never vanishes -/
+example : alphaBadRows 1 (fun _ => (1 : F)) (fun _ => 0) (fun _ => 0) = ∅ := by
+  simp [alphaBadRows, alphaBad, alphaPoly]
+
+/-- **`challenge_separation` (widgets).**  For a row whose model check `rowHolds` FAILS
+    (canonical widget selectors), the gate expression
+    `arith + q_range·range(ρ) + q_logic·logic(λ) + q_fixed·fixed(φ) + q_var·var(ν) + PI`
+    is either never zero, or there is one separation challenge such that, whatever the other
+    three, at most `7 / 9 / 7 / 5` values of it make the expression vanish.  (C05
+    `gate_sum_bad_set`, restated; the converse `rowHolds → expression ≡ 0` is C05
+    `gate_sum_zero_iff`.) -/
+theorem challenge_separation_widgets (g : Gate) (hg : SelReduced g) (a b c d an bn dn pi : Nat)
+    (h : rowHolds g a b c d an bn dn pi = false) :
+    let E := fun s : Seps F => gateSumR (Quot.selF g) (wiresF a b c d an bn dn) (toF pi) s
+    (∀ s, E s ≠ 0) ∨
+    (∀ l φ ν, ∀ S : Finset F, (∀ ρ ∈ S, E ⟨ρ, l, φ, ν⟩ = 0) → S.card ≤ 7) ∨
+    (∀ ρ φ ν, ∀ S : Finset F, (∀ l ∈ S, E ⟨ρ, l, φ, ν⟩ = 0) → S.card ≤ 9) ∨
+    (∀ ρ l ν, ∀ S : Finset F, (∀ φ ∈ S, E ⟨ρ, l, φ, ν⟩ = 0) → S.card ≤ 7) ∨
+    (∀ ρ l φ, ∀ S : Finset F, (∀ ν ∈ S, E ⟨ρ, l, φ, ν⟩ = 0) → S.card ≤ 5) :=
+  Quot.gate_sum_bad_set g hg a b c d an bn dn pi h
+
+example : SelReduced { qrange := 1 } ∧ rowHolds { qrange := 1 } 0 0 0 1 0 0 0 0 = false := by
+  refine ⟨⟨R_gt_one, R_pos, R_pos, R_pos⟩, ?_⟩
+  decide +kernel
+
+/-! ### 6. the opening layer -/
+
+/-- **`forged_evaluation_rejected`** (honest witnesses, polynomials of `F[X]`).  `n` opening
+    points `zᵢ`, at point `i` the committed polynomials `p i j` (`j < kᵢ`) with claimed evaluations
+    `e i j`, flattened with `vᵢ`, batched with `u`.  For `vᵢ ∉ aggBad` (at most `kᵢ − 1` values,
+    fixed by the polynomials, the points and the claimed evaluations) and `u ∉ aggBad` (at most
+    `n − 1` values, fixed moreover by the `vᵢ`): the batched check in the trapdoor view passes IFF
+    every claimed evaluation is the true one; so a single forged evaluation — or a field-wise
+    splice, whose evaluations do not match the spliced commitments — is rejected. -/
+theorem forged_evaluation_rejected {G : Type*} [AddCommGroup G] [Module F G] {g : G}
+    (hg : Nondeg F g) (x : F) (n : ℕ) (z : ℕ → F) (k : ℕ → ℕ) (p : ℕ → ℕ → F[X])
+    (e : ℕ → ℕ → F) (v : ℕ → F) :
+    (∀ i, (aggBad (k i) (evalErr z p e i)).card ≤ k i - 1) ∧
+    ((∀ i < n, v i ∉ aggBad (k i) (evalErr z p e i)) →
+      (aggBad n (defect v z k p e)).card ≤ n - 1 ∧
+      ∀ u, u ∉ aggBad n (defect v z k p e) →
+        ((x • agg u n (fun i => KzgMath.commit x g (agg (v i) (k i) (p i) /ₘ (X - C (z i))))
+            = agg u n (fun i => agg (v i) (k i) (fun j => KzgMath.commit x g (p i j))
+                + z i • KzgMath.commit x g (agg (v i) (k i) (p i) /ₘ (X - C (z i))))
+              - agg u n (fun i => agg (v i) (k i) (e i)) • g)
+          ↔ ∀ i < n, ∀ j < k i, e i j = (p i j).eval (z i))) :=
+  ⟨fun i => aggBad_card_le _ _, fun hv => ⟨aggBad_card_le _ _, fun u hu =>
+    batch_open_sound hg x n z k p e v hv u hu⟩⟩
+
+/-- non-vacuity: one point, one polynomial `p = X`, `z = 2`, forged evaluation `3 ≠ 2`: both bad
+    sets are empty, every `v`, `u` rejects -/
+example : Nondeg F (1 : F) ∧
+    aggBad 1 (evalErr (fun _ => (2 : F)) (fun _ _ => X) (fun _ _ => 3) 0) = ∅ ∧
+    (∀ v : ℕ → F, aggBad 1 (defect v (fun _ => (2 : F)) (fun _ => 1) (fun _ _ => X) (fun _ _ => 3)) = ∅) ∧
+    ((fun _ _ => (3 : F)) 0 0 ≠ ((fun _ _ => (X : F[X])) 0 0).eval ((fun _ => (2 : F)) 0)) := by
+  refine ⟨nondeg_one, aggBad_one_empty _, fun v => aggBad_one_empty _, ?_⟩
+  simp only [eval_X]
+  intro h
+  have : (1 : F) = 0 := by linear_combination h
+  exact one_ne_zero this
+
+/-- the same on the model's functions: witnesses are commitments of the model's
+    `aggregateWitness`, true values are the model's `Poly.evaluate` on the coefficient lists -/
+theorem forged_evaluation_rejected_model {G : Type*} [AddCommGroup G] [Module F G] {g : G}
+    (hg : Nondeg F g) (x : F) (n : ℕ) (polys : ℕ → List Poly) (evals : ℕ → ℕ → Nat) (z v : ℕ → Nat)
+    (hv : ∀ i < n, toF (v i) ∉ aggBad (polys i).length
+      (fun j => toF (evals i j) - toF (Poly.evaluate ((polys i).getD j []) (z i))))
+    (u : F) (hu : u ∉ aggBad n (fun i => modelDefect (polys i) (evals i) (z i) (v i))) :
+    (∀ i, (aggBad (polys i).length
+      (fun j => toF (evals i j) - toF (Poly.evaluate ((polys i).getD j []) (z i)))).card
+        ≤ (polys i).length - 1) ∧
+    (aggBad n (fun i => modelDefect (polys i) (evals i) (z i) (v i))).card ≤ n - 1 ∧
+    ((x • agg u n (fun i => KzgMath.commit x g (toPoly (aggregateWitness (polys i) (z i) (v i))))
+        = agg u n (fun i =>
+            agg (toF (v i)) (polys i).length
+              (fun j => KzgMath.commit x g (toPoly ((polys i).getD j [])))
+            + toF (z i) • KzgMath.commit x g (toPoly (aggregateWitness (polys i) (z i) (v i))))
+          - agg u n (fun i => agg (toF (v i)) (polys i).length (fun j => toF (evals i j))) • g)
+      ↔ ∀ i < n, ∀ j < (polys i).length,
+          toF (evals i j) = toF (Poly.evaluate ((polys i).getD j []) (z i))) :=
+  ⟨fun _ => aggBad_card_le _ _, aggBad_card_le _ _,
+    batch_open_sound_model hg x n polys evals z v hv u hu⟩
+
+/-- non-vacuity: one point, the coefficient list `[1, 2]` (`1 + 2X`) at `z = 4` -/
+example : (∀ i < 1, toF ((fun _ => 7) i) ∉ aggBad ((fun _ => [[1, 2]]) i : List Poly).length
+      (fun j => toF ((fun _ _ => 9) i j) -
+        toF (Poly.evaluate (((fun _ => [[1, 2]]) i : List Poly).getD j []) ((fun _ => 4) i)))) ∧
+    (∀ u : F, u ∉ aggBad 1 (fun i => modelDefect ((fun _ => [[1, 2]]) i) ((fun _ _ => 9) i)
+      ((fun _ => 4) i) ((fun _ => 7) i))) := by
+  refine ⟨fun i _ => ?_, fun u => ?_⟩
+  · show _ ∉ aggBad 1 _
+    rw [aggBad_one_empty]; exact Finset.notMem_empty _
+  · rw [aggBad_one_empty]; exact Finset.notMem_empty _
+
+/-- **Algebraic adversary** (A1 made explicit): the witnesses are commitments of ARBITRARY
+    polynomials `hᵢ`, chosen after the `vᵢ`.  If the batched check passes with
+    `vᵢ ∉ aggBad` (`≤ kᵢ − 1` values), `u ∉ agmUBad` (`≤ n − 1` values, fixed by everything before
+    `u`) and the trapdoor `x ∉ trapdoorBad` (the roots of the explicit polynomial `openPoly`, at most
+    `D + 1` when `deg hᵢ ≤ D`, `deg pᵢⱼ ≤ D + 1`), then every claimed evaluation is the true one. -/
+theorem forged_evaluation_rejected_agm {G : Type*} [AddCommGroup G] [Module F G] {g : G}
+    (hg : Nondeg F g) (n : ℕ) (z : ℕ → F) (k : ℕ → ℕ) (p : ℕ → ℕ → F[X]) (e : ℕ → ℕ → F)
+    (v : ℕ → F) (hv : ∀ i < n, v i ∉ aggBad (k i) (evalErr z p e i)) (h : ℕ → F[X]) (D : ℕ)
+    (hh : ∀ i < n, (h i).natDegree ≤ D) (hp : ∀ i < n, ∀ j < k i, (p i j).natDegree ≤ D + 1) :
+    (agmUBad n (openTerm v z k p e h)).card ≤ n - 1 ∧
+    ∀ u, u ∉ agmUBad n (openTerm v z k p e h) →
+      (trapdoorBad u n v z k p e h).card ≤ D + 1 ∧
+      ∀ x, x ∉ trapdoorBad u n v z k p e h →
+        (x • agg u n (fun i => KzgMath.commit x g (h i))
+          = agg u n (fun i => agg (v i) (k i) (fun j => KzgMath.commit x g (p i j))
+              + z i • KzgMath.commit x g (h i))
+            - agg u n (fun i => agg (v i) (k i) (e i)) • g) →
+        ∀ i < n, ∀ j < k i, e i j = (p i j).eval (z i) :=
+  ⟨agmUBad_card_le _ _, fun u hu => ⟨trapdoorBad_card_le u n v z k p e h D hh hp, fun x hx hc =>
+    agm_batch_open_sound hg n z k p e v hv h u hu x hx hc⟩⟩
+
+/-- non-vacuity: one point, `p = X`, `z = 2`, `h = 1` (the true quotient), any `v` -/
+example : (∀ v : ℕ → F, ∀ i < 1,
+      v i ∉ aggBad ((fun _ => 1) i) (evalErr (fun _ => (2 : F)) (fun _ _ => X) (fun _ _ => 2) i)) ∧
+    (∀ i < 1, ((fun _ => (1 : F[X])) i).natDegree ≤ 0) ∧
+    (∀ i < 1, ∀ j < (fun _ => 1) i, ((fun _ _ => (X : F[X])) i j).natDegree ≤ 0 + 1) := by
+  refine ⟨fun v _ _ => ?_, fun i _ => by simp, fun i _ j _ => by simp⟩
+  show _ ∉ aggBad 1 _
+  rw [aggBad_one_empty]; exact Finset.notMem_empty _
+
+/-! ### 5. the composition -/
+
+/-- **`soundness_algebraic`.**  Compiled layout `lay` (selector rows `lay.gateAt`, public inputs
+    `lay.piAt`, permutation `σ = sigmaFn lay`) on the domain `⟨ω⟩` of size `n = 2^k ≥` number of
+    gates; preprocessed polynomials interpolating the layout (`KeyInterp`); ARBITRARY wire
+    polynomials `P.a … P.d`, accumulator `P.z` and quotient `T` (assumption (A1)).  If the quotient
+    identity `Num(z) = T(z)·(zⁿ − 1)` holds at ONE point `z`, with
+    `β ∉ betaBad`, `γ ∉ gammaBadM β`, `(ρ,λ,φ,ν) ∉ sepBad`, `α ∉ alphaBadM`, `z ∉ idBad Num T n`,
+    then the assignment read off the wire polynomials on the domain satisfies the model's row
+    check `rowHolds` on EVERY row of the padded table (next row cyclic) and respects `σ`, i.e. has
+    no copy violation. -/
+theorem soundness_algebraic (lay : Composer) {k : Nat} (hk : k ≤ 32) (hn : lay.gates.size ≤ 2 ^ k)
+    {ω : F} (hω : IsPrimitiveRoot ω (2 ^ k)) (P : ProverPolys F)
+    (I : KeyInterp ω (2 ^ k) lay P)
+    (β γ : F) (hβ : β ∉ betaBad ω (2 ^ k) lay P) (hγ : γ ∉ gammaBadM ω (2 ^ k) lay P β)
+    (t : F × F × F × F) (ht : t ∉ sepBad ω (2 ^ k) lay P)
+    (α : F) (hα : α ∉ alphaBadM ω (2 ^ k) lay P β γ (sepsOf t))
+    (T : F[X]) (z : F) (hz : z ∉ idBad (NumP ω (2 ^ k) P ⟨β, γ, α⟩ (sepsOf t)) T (2 ^ k))
+    (hid : (NumP ω (2 ^ k) P ⟨β, γ, α⟩ (sepsOf t)).eval z = T.eval z * (z ^ 2 ^ k - 1)) :
+    (∀ i < 2 ^ k,
+      rowHolds (lay.gateAt i) (wireNat ω P 0 i) (wireNat ω P 1 i) (wireNat ω P 2 i) (wireNat ω P 3 i)
+        (wireNat ω P 0 ((i + 1) % 2 ^ k)) (wireNat ω P 1 ((i + 1) % 2 ^ k))
+        (wireNat ω P 3 ((i + 1) % 2 ^ k)) (lay.piAt i) = true) ∧
+    (∀ p, wireVal ω P (sigmaFn lay p) = wireVal ω P p) ∧
+    (∀ p q, SameClass lay p q → wireVal ω P p = wireVal ω P q) := by
+  obtain ⟨h1, h2⟩ := soundness_core lay hk hn hω P I β γ hβ hγ t ht α hα T z hz hid
+  exact ⟨h1, h2, (respects_iff_const lay (wireVal ω P)).mp h2⟩
+
+/-- non-vacuity: for the instance `exLay2 / exP2` (two addition rows `1 + 2 − 3 = 0`, eight distinct
+    witnesses, domain `{1, −1}`) every hypothesis is satisfiable: the layout is interpolated, and
+    challenges outside all five bad sets exist, with the quotient identity holding at `z = 5` for
+    `T = 0` -/
+example : (1 ≤ 32) ∧ exLay2.gates.size ≤ 2 ^ 1 ∧ IsPrimitiveRoot (-1 : F) (2 ^ 1) ∧
+    KeyInterp (-1) (2 ^ 1) exLay2 exP2 ∧
+    ∃ β γ t α,
+      β ∉ betaBad (-1) (2 ^ 1) exLay2 exP2 ∧ γ ∉ gammaBadM (-1) (2 ^ 1) exLay2 exP2 β ∧
+      t ∉ sepBad (-1) (2 ^ 1) exLay2 exP2 ∧
+      α ∉ alphaBadM (-1) (2 ^ 1) exLay2 exP2 β γ (sepsOf t) ∧
+      (5 : F) ∉ idBad (NumP (-1) (2 ^ 1) exP2 ⟨β, γ, α⟩ (sepsOf t)) 0 (2 ^ 1) ∧
+      (NumP (-1) (2 ^ 1) exP2 ⟨β, γ, α⟩ (sepsOf t)).eval 5 =
+        (0 : F[X]).eval 5 * ((5 : F) ^ 2 ^ 1 - 1) :=
+  ⟨ex_soundness_struct.1, ex_soundness_struct.2.1, ex_soundness_struct.2.2, exKey, ex_soundness_hyps⟩
+
+/-- **The bad sets of `soundness_algebraic` are small.**  With `n = 2^k` rows:
+    `|betaBad| ≤ (4n)²`, `|gammaBadM| ≤ 8n`, `|sepBad| ≤ 9n·|F|³` (of the `|F|⁴` tuples `(ρ,λ,φ,ν)`;
+    needs canonical widget selectors), `|alphaBadM| ≤ 2n`, `|idBad| ≤ max (deg Num) (deg T + n)`.
+    By a union bound (A2) an accepting transcript has a bad challenge with probability at most
+    `((4n)² + 8n + 9n + 2n + max (deg Num) (deg T + n)) / |F|`. -/
+theorem soundness_bad_sets (lay : Composer) (n : Nat) (ω : F) (P : ProverPolys F)
+    (hG : ∀ i < n, SelReduced (lay.gateAt i)) (β γ α : F) (t : F × F × F × F) (T : F[X]) :
+    (betaBad ω n lay P).card ≤ (4 * n) * (4 * n) ∧
+    (gammaBadM ω n lay P β).card ≤ 8 * n ∧
+    (sepBad ω n lay P).card ≤ n * (9 * (R * (R * R))) ∧
+    Fintype.card (F × F × F × F) = R * (R * (R * R)) ∧
+    (alphaBadM ω n lay P β γ (sepsOf t)).card ≤ 2 * n ∧
+    (idBad (NumP ω n P ⟨β, γ, α⟩ (sepsOf t)) T n).card ≤
+      max (NumP ω n P ⟨β, γ, α⟩ (sepsOf t)).natDegree (T.natDegree + n) :=
+  ⟨betaBad_card_le ω n lay P, gammaBadM_card_le ω n lay P β, sepBad_card_le ω n lay P hG, card_F4,
+    alphaBadM_card_le ω n lay P β γ (sepsOf t), idBad_card_le _ T n⟩
+
+/-- non-vacuity: the selectors of the instance are canonical -/
+example : ∀ i < 2 ^ 1, SelReduced (exLay2.gateAt i) := fun i _ => exLay2_selReduced i
+
 end Plonk.Props.C02
